@@ -8,7 +8,12 @@ Enumerated cases (each: build the chart on the real library, then run the oracle
      1234.5678, 0.12345678, 0.1+0.2; every category forest within the bound; series counts {0,1,2,3,26,27} |
      0..50 x value kinds; number formats; RAGGED category data — per-series point counts {0..5}^ns over 3
      categories and {0,2,4,6}^ns | {0..6}^ns over 4 two-level leaves, so c:val ranges shorter, longer and
-     empty next to a c:cat range of fixed size; XY/bubble length patterns);
+     empty next to a c:cat range of fixed size; XY/bubble length patterns; the numeric TYPE alphabet
+     {int subclass, float subclass, decimal.Decimal, integral fractions.Fraction} as series values, as category
+     labels and as XY/bubble X, Y and size, plus Fraction with a denominator (fraction_ratio: 5/2, -1/3, ..) in the
+     value roles only — the library caches the text '5/2', which is not the number in the cell: reported as
+     `C08|cell-mismatch|kind=..|cell=unparsable-cache|value-type=fraction_ratio`; categories ASSIGNED (`cd.categories = iterable`: once, twice, over
+     other labels, over a hierarchy, after add_category, after the series) instead of added one by one);
   B  column-letter boundaries: category depth 1..4 (ragged chain forests) x series counts {25,26,27} on every
      category chart type; thorough adds {701,702,703} on one type per writer family (columns ZZ/AAA);
   C  `CategoryWorkbookWriter._column_reference` for ALL 16384 columns against an independent block-wise
@@ -22,14 +27,25 @@ Enumerated cases (each: build the chart on the real library, then run the oracle
      type, and every shape (thorough: pairs) applied to each corpus chart of the three chart decks; for
      these the deck is also SAVED and the workbook is taken from the saved package through an independent
      OPC reader (chart part -> package relationship -> embedded part) and must be the replaced blob;
-  L  replace_data on a one-series chart of every category chart type with every ragged shape and with
-     int_wide / float_wide labels x {1,7} categories (c07_shapes.replace_extra_shapes: 66 | 318 shapes);
+  L  replace_data on a one-series chart of EVERY chart type with c07_shapes.replace_extra_shapes: category types:
+     every ragged shape, int_wide / float_wide labels x {1,7} categories, the numeric TYPE alphabet (see A) and
+     the category construction paths (106 | 358 shapes); XY/bubble: the numeric type alphabet (10 shapes);
   R  ONE chart-data object used twice with growth in between (c07_shapes.reuse_pairs / apply_delta, documented
      chart-data API only): add_chart(cd); then add_category (flat; a new multi-level top category) |
-     add_sub_category | add_series | add_data_point on a short series; XY/bubble: EVERY series position
+     add_sub_category | add_series | add_data_point on a short series | `cd.categories = [...]` RE-ASSIGNED (same
+     labels, more, fewer, numeric over strings, flat over a hierarchy); XY/bubble: EVERY series position
      (first, middle, last) of 2- and 3-series data grown by two points, or a series added; then
      chart.replace_data(cd) or a second add_chart(cd); one chart type per writer family; the oracle runs after
      EACH use (anything cached at the first use — workbook blob, row offsets — is caught here);
+  M  SEVERAL charts in ONE package created from IDENTICAL chart data (the harness's fixed clock, mc/core/clock.py,
+     makes the workbook writer's output byte-identical; asserted), then every sequence of replace_data steps over
+     (chart index) x {smallest history shape, biggest history shape, the placeholder data again}:
+       every chart type: 2 charts, sequences of length 0..1 (7);
+       one type per writer family (thorough: every type): 2 charts and 3 charts, length 0..2 (43 + 91);
+       each pair of neighbouring category writer families (two DIFFERENT chart types fed the same data): length
+       0..1 (thorough 0..2);
+     in the final state EVERY chart of the package — replaced last, replaced earlier, untouched — is checked
+     against ITS OWN workbook part, in memory and in the saved package (independent OPC reader): 1254 | 4101 cases;
   H  a chart whose part says c:date1904=1 (generated deck patched with the harness's own zip writer and
      re-opened), then replace_data with date categories (2016 dates, representable in both date systems).
 
@@ -70,7 +86,7 @@ from mc.props import c07_shapes as S
 LEVEL = "exploration"
 RULE = ("one evaluation = one chart state (after add_chart or after the last replace_data of the case) whose every "
         "series formula reference is resolved in the embedded workbook and compared with its cache; cases are the "
-        "families A-H, L and R of the module docstring, each a full product within the stated bound. Non-trivial = the "
+        "families A-H, L, M and R of the module docstring, each a full product within the stated bound. Non-trivial = the "
         "evaluation compared at least one cached point with a workbook cell; counted per distinct case.")
 ASSUMPTIONS = [
     "bounded as C07 (c07_shapes.creation_shapes / history_shapes) plus series counts 25-27 (quick) and 701-703 "
@@ -82,6 +98,12 @@ ASSUMPTIONS = [
     "numbers are compared with relative tolerance 1e-14; a blank or absent cell equals the empty string",
     "an inverted range written for an empty series is read as a range of size 0",
     "operations that raise are reported by C07 (same enumeration), here they are only counted",
+    "numeric types other than int/float: int and float subclasses, decimal.Decimal in plain notation, fractions.Fraction "
+    "with denominator 1 (types whose str() is a plain decimal numeral) in every role; Fraction with a denominator in the "
+    "value roles only (central triage decision: a number; its cache text 'n/d' is reported); bool and exponent-notation "
+    "Decimals are outside the domain (arguable)",
+    "several charts per package (family M): 2-3 charts created from identical data, replace_data sequences of length <=2 "
+    "over a 3-shape alphabet; byte-identical workbooks rely on the harness's fixed clock (asserted non-vacuous)",
 ]
 
 C = c07.C
@@ -107,7 +129,7 @@ def _compare(cache_kind, vtext, cell):
         try:
             want = float(vtext)
         except (TypeError, ValueError):
-            return "unparsable-cache", "cached number %r is not a number" % (vtext,)
+            return "unparsable-cache", "cached number %r is not a decimal number (cell %s is %s %r)" % (vtext, cell.ref, cell.kind, cell.value)
         if cell.kind != "number":
             return cell.kind, "cache has number %r, cell %s is %s %r" % (vtext, cell.ref, cell.kind, cell.value)
         if not _num_close(want, cell.value):
@@ -218,6 +240,18 @@ def check_refs(root, wb, data_kind, label_kind=None):
     return out, stats
 
 
+def _typed_tail(tail, spec, kind):
+    """Signature tail for data whose values are of a value-only numeric type (c07_shapes.VALUE_ONLY_NUM_TYPES): one
+    signature per rule x kind x cell class, the type named in it (the reference role is dropped: X, Y, size and
+    values all fail for the same reason); every other shape keeps its tail, so the two never merge."""
+    vt = S.value_type(spec)
+    if vt not in S.VALUE_ONLY_NUM_TYPES or "cell=unparsable-cache" not in tail:
+        return tail
+    parts = tail.split("|")
+    cell = next((x for x in parts if x.startswith("cell=")), None)
+    return "|".join([parts[0], "kind=%s" % kind] + ([cell] if cell else []) + ["value-type=%s" % vt])
+
+
 def saved_workbook_blob(prs, chart):
     """The embedded workbook of `chart` as found in the SAVED package by an independent OPC reader."""
     buf = io.BytesIO()
@@ -321,7 +355,7 @@ def exec_case(case, emit, part=None, slides=None):
         return info
     viols, stats = check_refs(root, wb, kind, S.label_kind(final) if kind == "cat" else None)
     for tail, what in viols:
-        emit("C08|" + tail, "%s: %s" % (desc, what))
+        emit("C08|" + _typed_tail(tail, final, kind), "%s: %s" % (desc, what))
     info["pts"] = stats["pts"]
     if part is not None:
         part.count("refs_resolved", stats["refs"])
@@ -392,6 +426,131 @@ def exec_reuse(case, emit, part=None):
         part.count("refs_resolved", stats["refs"])
         part.count("points_compared", info["pts"])
         part.outcome("verdict", "agree" if not viols else "mismatch")
+    return info
+
+
+# ---- family M: several charts built from identical data in ONE package, replace_data on some of them ------------------
+
+MULTI_ROLES = ("untouched", "replaced-earlier", "replaced-last")
+
+
+def multi_base(kind):
+    """The placeholder data every chart of a family-M package is created from."""
+    return {"k": "cat", "lab": "str", "n": 3, "ns": 1, "vk": "int"} if kind == "cat" else {"k": kind, "lens": [3], "vk": "int"}
+
+
+def multi_replacements(kind):
+    """Replacement alphabet: the smallest and the biggest C07 history shape, and the placeholder data again."""
+    H = S.history_shapes(kind)
+    return [H[0], H[4], multi_base(kind)]
+
+
+def multi_sequences(k, max_len, n_repl=3):
+    """Every sequence of (chart index, replacement index) steps of length 0..max_len; (k*n_repl)^l per length."""
+    steps = list(itertools.product(range(k), range(n_repl)))
+    out = []
+    for ln in range(max_len + 1):
+        out.extend([list(map(list, q)) for q in itertools.product(steps, repeat=ln)])
+    return out
+
+
+def multi_sequences_count(k, max_len, n_repl=3):
+    return sum((k * n_repl) ** ln for ln in range(max_len + 1))
+
+
+def _multi_sigs(viols, role, kind):
+    """Signature tails for one chart of a family-M package. The chart the last replace_data was applied to keeps
+    the full tail (a writer defect); for any OTHER chart only the first mismatch is reported, by its class: its
+    own data was written correctly earlier (shorter cases show that), so whatever broke it is a side effect."""
+    if role == "replaced-last":
+        return [("%s|multi-chart|role=%s" % (tail, role), what) for tail, what in viols]
+    return [("multi-chart|role=%s|kind=%s|%s" % (role, kind, tail.split("|")[0]), what) for tail, what in viols[:1]]
+
+
+def exec_multi(case, emit, part=None):
+    """k charts (one slide each) created from IDENTICAL chart data in one package — with the harness's fixed
+    clock their workbooks are byte-identical —, then the case's replace_data steps, each on one chart. In the
+    FINAL state EVERY chart of the package is checked against ITS OWN workbook: in memory, and again in the
+    saved package (independent OPC reader: chart part -> package relationship -> embedded part)."""
+    from pptx import Presentation
+    from pptx.enum.chart import XL_CHART_TYPE
+    from mc.core import clock
+    clock.install()
+    types, steps = case["types"], case["steps"]
+    kind = S.kind_of(types[0])
+    base, repl = multi_base(kind), multi_replacements(kind)
+    info = {"raised": False, "pts": 0, "charts": 0, "identical": False}
+    current = [base] * len(types)
+    role = ["untouched"] * len(types)
+    try:
+        prs = Presentation()
+        charts = []
+        for t in types:
+            slide = prs.slides.add_slide(prs.slide_layouts[6])
+            charts.append(slide.shapes.add_chart(getattr(XL_CHART_TYPE, t), 0, 0, 3000000, 2000000, S.build(base)).chart)
+        blobs = [ch.part.chart_workbook.xlsx_part.blob for ch in charts]
+        info["identical"] = all(b == blobs[0] for b in blobs)
+        for j, r in steps:
+            charts[j].replace_data(S.build(repl[r]))
+            current[j] = repl[r]
+            role = ["replaced-earlier" if x == "replaced-last" else x for x in role]
+            role[j] = "replaced-last"
+    except HarnessError:
+        raise
+    except Exception as e:  # noqa: BLE001  -- raising operations are C07's business
+        info["raised"] = True
+        if part is not None:
+            part.outcome("build", "raised:" + type(e).__name__)
+        return info
+    head = "package with %d charts (%s) each created from %s%s" % (
+        len(types), ", ".join(types), c07._spec_brief(base),
+        "".join("; chart %d replace_data %s" % (j, c07._spec_brief(repl[r])) for j, r in steps))
+    clean = []
+    n_bad = 0
+    for i, ch in enumerate(charts):
+        lk = S.label_kind(current[i]) if kind == "cat" else None
+        viols, stats = _check_chart(ch, kind, lk)
+        info["charts"] += 1
+        info["pts"] += stats["pts"]
+        n_bad += len(viols)
+        clean.append(not viols)
+        for tail, what in _multi_sigs(viols, role[i], kind):
+            emit("C08|%s" % tail, "%s: chart %d (%s): %s" % (head, i, role[i], what))
+        if part is not None:
+            part.count("refs_resolved", stats["refs"])
+            part.count("points_compared", stats["pts"])
+    # the same in the saved package
+    buf = io.BytesIO()
+    prs.save(buf)
+    pkg = opc_ref.read(buf.getvalue())
+    for i, ch in enumerate(charts):
+        name = str(ch.part.partname)
+        sroot = etree.fromstring(pkg.blob(name), _bare)
+        ext = sroot.find(C + "externalData")
+        rid = ext.get("{http://schemas.openxmlformats.org/officeDocument/2006/relationships}id") if ext is not None else None
+        target = next((rel.target for rel in pkg.rels(name) if rel.id == rid and rel.mode != "External"), None)
+        if target is None:
+            n_bad += 1
+            emit("C08|workbook-part|not-in-saved-package|multi-chart", "%s: chart %d: saved package has no workbook related from the chart part" % (head, i))
+            continue
+        try:
+            wb = xlsx_ref.read(pkg.blob(target))
+        except xlsx_ref.XlsxError as e:
+            n_bad += 1
+            emit("C08|workbook-part|unreadable|multi-chart", "%s: chart %d in the saved package: %s" % (head, i, e))
+            continue
+        viols, stats = check_refs(sroot, wb, kind, S.label_kind(current[i]) if kind == "cat" else None)
+        info["pts"] += stats["pts"]
+        n_bad += len(viols)
+        if part is not None:
+            part.count("points_compared", stats["pts"])
+        if clean[i]:  # else already reported from the in-memory state
+            for tail, what in _multi_sigs(viols, role[i], kind):
+                emit("C08|%s|saved-package" % tail,
+                     "%s: chart %d (%s) in the SAVED package (%s -> %s): %s" % (head, i, role[i], name, target, what))
+    if part is not None:
+        part.outcome("build", "ok")
+        part.outcome("verdict", "agree" if not n_bad else "mismatch")
     return info
 
 
@@ -471,6 +630,20 @@ def _work(part, chunk):
             if info["raised"]:
                 part.count("cases_op_raised")
             elif info["pts"] > 0:
+                part.count("nontrivial_count")
+            continue
+        if case["src"] == "multi":
+            info = exec_multi(case, emit, part=part)
+            part.count("cases")
+            part.count("cases_by_family_" + case["fam"])
+            if info["raised"]:
+                part.count("cases_op_raised")
+                continue
+            part.count("evaluations", info["charts"])
+            part.count("multi_chart_packages")
+            if info["identical"]:
+                part.count("multi_chart_packages_created_with_byte_identical_workbooks")
+            if info["pts"] > 0:
                 part.count("nontrivial_count")
             continue
         info = exec_case(case, emit, part=part, slides=slides)
@@ -565,13 +738,15 @@ def build_cases(thorough, types, corpus):
                 add("G", {"src": "corpus", "deck": deck, "slide": si, "shape": hi, "ops": [H[i] for i in q], "saved": True})
             expected_g += 6 ** ln
     # L
-    xtra, xtra_size = S.replace_extra_shapes("cat", thorough)
-    if len(xtra) != xtra_size or not xtra:
-        raise HarnessError("replace-extra generator produced %d shapes, closed form %d" % (len(xtra), xtra_size))
-    for t in cat_types:
+    expected_l = 0
+    for t in types:
+        k = S.kind_of(t)
+        xtra, xtra_size = S.replace_extra_shapes(k, thorough)
+        if len(xtra) != xtra_size or not xtra:
+            raise HarnessError("replace-extra generator for %s produced %d shapes, closed form %d" % (k, len(xtra), xtra_size))
         for sp in xtra:
-            add("L", {"src": "gen", "type": t, "ops": [S.REPLACE_BASE, sp]})
-    expected_l = len(cat_types) * xtra_size
+            add("L", {"src": "gen", "type": t, "ops": [S.replace_base(k), sp]})
+        expected_l += xtra_size
     # H
     for t in cat_fam_types:
         # dates representable in the 1904 system (2016-12-27 onwards, midnight)
@@ -586,7 +761,33 @@ def build_cases(thorough, types, corpus):
                 add("R", {"src": "reuse", "type": t, "mut": mut, "before": before, "after": after, "second": second})
     expected_r = 2 * (len(S.reuse_pairs("cat")) * len(cat_fam_types)
                       + len(S.reuse_pairs("xy")) * (len(fam_types) - len(cat_fam_types)))
-    expected = {"R": expected_r, "L": expected_l, "A": expected_a, "B": expected_b, "D": expected_d, "E": expected_e, "F": expected_f, "G": expected_g, "H": expected_h}
+    # M
+    fam_reps = [fam_types[f] for f in sorted(fam_types)]
+    cat_reps = [t for t in fam_reps if S.kind_of(t) == "cat"]
+    cross = list(zip(cat_reps, cat_reps[1:]))  # two DIFFERENT chart types fed the same data
+    deep = types if thorough else fam_reps
+
+    def add_multi(tt, max_len, min_len=0):
+        n = 0
+        for q in multi_sequences(len(tt), max_len):
+            if len(q) >= min_len:
+                add("M", {"src": "multi", "types": list(tt), "steps": q})
+                n += 1
+        return n
+
+    expected_m = 0
+    for t in types:
+        if t in deep:
+            add_multi((t, t), 2)
+            add_multi((t, t, t), 2)
+            expected_m += multi_sequences_count(2, 2) + multi_sequences_count(3, 2)
+        else:
+            add_multi((t, t), 1)
+            expected_m += multi_sequences_count(2, 1)
+    for pair in cross:
+        add_multi(pair, 2 if thorough else 1)
+        expected_m += multi_sequences_count(2, 2 if thorough else 1)
+    expected = {"M": expected_m, "R": expected_r, "L": expected_l, "A": expected_a, "B": expected_b, "D": expected_d, "E": expected_e, "F": expected_f, "G": expected_g, "H": expected_h}
     if sizes != expected:
         raise HarnessError("case generator sizes %r != closed forms %r" % (sizes, expected))
     return cases, expected
@@ -631,6 +832,8 @@ def run(ctx):
         raise HarnessError("cases executed %d != enumerated %d" % (ctx.counters.get("cases", 0), n_cases))
     if ctx.counters.get("column_references", 0) != xlsx_ref.MAX_COL:
         raise HarnessError("column references checked %d != 16384" % ctx.counters.get("column_references", 0))
+    if ctx.counters.get("multi_chart_packages", 0) and not ctx.counters.get("multi_chart_packages_created_with_byte_identical_workbooks", 0):
+        raise HarnessError("family M: no package whose charts started from byte-identical workbooks (fixed clock not in force?)")
     if ctx.counters.get("points_compared", 0) < 10000:
         raise HarnessError("only %d cached points were compared with cells: vacuous" % ctx.counters.get("points_compared", 0))
 
@@ -650,6 +853,8 @@ def replay(data):
             found.append(what)
     if case["src"] == "reuse":
         exec_reuse(case, emit)
+    elif case["src"] == "multi":
+        exec_multi(case, emit)
     else:
         exec_case(case, emit)
     return found[0] if found else None
